@@ -21,10 +21,10 @@ ASSUMPTIONS = [
     "DOO's default diameter function depends on cell size: translation only (documented exception)",
     "a genuine coordinate dependence moves points by whole cell widths, 6+ orders of magnitude above the tolerance",
 ]
-FLOOR = {"points_compared": {"quick": 50000, "thorough": 400000},
-         "points_compared_bit_exactly": {"quick": 20000, "thorough": 160000},
-         "exact_twins": {"quick": 200, "thorough": 1600},
-         "tolerance_twins": {"quick": 200, "thorough": 1600}}
+FLOOR = {"points_compared": {"quick": 150000, "thorough": 1800000},
+         "points_compared_bit_exactly": {"quick": 60000, "thorough": 720000},
+         "exact_twins": {"quick": 600, "thorough": 7200},
+         "tolerance_twins": {"quick": 600, "thorough": 7200}}
 WALL = {"quick": 1200, "thorough": 4 * 3600}
 ALG = [a for a in C.ALGOS]
 
@@ -41,7 +41,7 @@ def sigbits(v):
 
 
 def gen_cases(rng, tier, count=None):
-    count = count or (1000 if tier == "quick" else 12000)
+    count = count or (3000 if tier == "quick" else 36000)
     out = []
     for i in range(count):
         algo = ALG[(i // 2 + i) % len(ALG)]
@@ -69,6 +69,10 @@ def gen_cases(rng, tier, count=None):
                 # pure scaling by an extreme power of two (exact as long as nothing under/overflows): boxes 2^-80 ..
                 # 2^60 wide, anisotropic (the sides of the base box differ by up to 2^6)
                 s = float(2.0 ** rng.integers(-80, 61))
+                if rng.random() < 0.4:
+                    # scales at which a side of the image box crosses a constant of the float format (machine epsilon
+                    # 2^-52, float32's 2^-23, 2^-10 .. 2^-8 = typical 'small number' literals, 1)
+                    s = float(2.0 ** (int(rng.choice([-52, -52, -23, -10, -8, 0])) + int(rng.integers(-5, 6))))
                 b = [0.0] * dim
             if algo == "DOO":
                 s = 1.0
